@@ -226,23 +226,30 @@ orc_verif_enabled (void)
 void
 orc_verif_emit (const char *fmt, ...)
 {
-  char buf[4096];
+  char sbuf[2048];
+  char *buf = sbuf;
   int n, m;
   va_list args;
   unsigned int q;
 
   if (!orc_verif_enabled ()) return;
-  q = __atomic_add_fetch (&_orc_verif_seq, 1, __ATOMIC_SEQ_CST);
-  n = snprintf (buf, sizeof (buf), "{\"q\":%u,\"t\":%lu,", q,
-      (unsigned long) ((unsigned long) pthread_self () % 1000003UL));
   va_start (args, fmt);
-  m = vsnprintf (buf + n, sizeof (buf) - n - 2, fmt, args);
+  m = vsnprintf (NULL, 0, fmt, args);
   va_end (args);
   if (m < 0) return;
-  if (m > (int) sizeof (buf) - n - 3) m = sizeof (buf) - n - 3;
-  n += m;
+  if (m + 80 > (int) sizeof (sbuf)) {
+    buf = malloc (m + 80);
+    if (buf == NULL) return;
+  }
+  q = __atomic_add_fetch (&_orc_verif_seq, 1, __ATOMIC_SEQ_CST);
+  n = sprintf (buf, "{\"q\":%u,\"t\":%lu,", q,
+      (unsigned long) ((unsigned long) pthread_self () % 1000003UL));
+  va_start (args, fmt);
+  n += vsprintf (buf + n, fmt, args);
+  va_end (args);
   buf[n++] = '}';
   buf[n++] = '\n';
   if (write (_orc_verif_fd, buf, n) < 0) { /* nothing to do */ }
+  if (buf != sbuf) free (buf);
 }
 #endif
